@@ -909,6 +909,8 @@ class HTTPConnectionPool(ConnectionPool, RequestMethods):
                 # And lose the body not to transfer anything sensitive.
                 body = None
                 body_pos = None
+                # A request without content is not sent chunked.
+                chunked = False
                 headers = HTTPHeaderDict(headers)._prepare_for_method_change()
 
             try:
